@@ -204,14 +204,16 @@ func (p *ReaderSkipDecoder) Next(t TType) (b []byte, err error) {
 func (p *ReaderSkipDecoder) SkipN(n int) (buf []byte, err error) {
 	p.Grow(n)
 	buf = p.b[p.n : p.n+n]
-	for i := 0; i < n && err == nil; { // io.ReadFull(buf)
+	i := 0
+	for i < n && err == nil { // io.ReadFull(buf)
 		var nn int
 		nn, err = p.r.Read(buf[i:])
 		i += nn
 	}
-	if err != nil {
-		return
+	if i < n {
+		return // err != nil
 	}
+	// like io.ReadFull, it's not an error if all n bytes were read
 	p.n += n
-	return
+	return buf, nil
 }
